@@ -112,6 +112,61 @@ var stdReaders = map[string]bool{
 	"unicode/utf8.DecodeRune": true, "unicode/utf8.DecodeLastRune": true, "unicode/utf8.DecodeRuneInString": true,
 }
 
+// package slices: every function taking a slice writes through it (Delete, Insert, Replace, Compact, Sort*, Reverse
+// shift or permute the elements in place and zero the freed tail) unless it is in this read-only list.
+var slicesReadOnly = map[string]bool{
+	"Index": true, "IndexFunc": true, "Contains": true, "ContainsFunc": true, "Equal": true, "EqualFunc": true,
+	"Compare": true, "CompareFunc": true, "Max": true, "MaxFunc": true, "Min": true, "MinFunc": true,
+	"BinarySearch": true, "BinarySearchFunc": true, "Clone": true, "IsSorted": true, "IsSortedFunc": true,
+	"Concat": true, "All": true, "Values": true, "Backward": true, "Chunk": true, "Grow": true, "Clip": true, "Repeat": true,
+}
+
+// foreignName gives the name of a function outside the module with generic instantiations folded onto
+// their origin ("slices.Delete[[]byte byte]" -> "slices.Delete").
+func foreignName(cal *ssa.Function) string {
+	if o := cal.Origin(); o != nil {
+		return o.String()
+	}
+	return cal.String()
+}
+
+// foreignWriter reports whether a call of the foreign function cal writes through one of its []byte
+// arguments, and through which. Beyond the table: package slices (default: writer) and bytes.NewBuffer,
+// which takes ownership of the slice — later writes to the buffer overwrite it from index 0 — unless the
+// new buffer is only ever read.
+func foreignWriter(c ssa.CallInstruction, cal *ssa.Function) (int, string, bool) {
+	name := foreignName(cal)
+	com := c.Common()
+	if k, ok := stdWriters[name]; ok {
+		return k, name, true
+	}
+	if strings.HasPrefix(name, "slices.") && !slicesReadOnly[strings.TrimPrefix(name, "slices.")] {
+		return 0, name, true
+	}
+	if name == "bytes.NewBuffer" && len(com.Args) == 1 {
+		v, ok := c.(ssa.Value)
+		if !ok {
+			return 0, name, false
+		}
+		for _, ref := range referrersOf(v) {
+			rc, ok := ref.(ssa.CallInstruction)
+			if ok {
+				if m := rc.Common().StaticCallee(); m != nil && len(rc.Common().Args) > 0 && rc.Common().Args[0] == v {
+					switch m.Name() {
+					case "Read", "ReadByte", "ReadRune", "ReadString", "ReadBytes", "Bytes", "String", "Len", "Cap", "Next", "WriteTo", "UnreadByte", "UnreadRune", "Available":
+						continue
+					}
+				}
+			}
+			if _, isDbg := ref.(*ssa.DebugRef); isDbg {
+				continue
+			}
+			return 0, name + " (the buffer is written or escapes)", true
+		}
+	}
+	return 0, name, false
+}
+
 var writerNamePrefixes = []string{"Append", "Put", "Encode", "Read", "Fill", "Sort", "Reverse", "Decode", "Copy", "Swap"}
 
 type FreshAnalysis struct {
@@ -372,8 +427,7 @@ func (fa *FreshAnalysis) ByteWritesOf(fn *ssa.Function) []ByteWrite {
 					if cal == nil || fa.w.InModule(cal) {
 						continue
 					}
-					name := cal.String()
-					if k, ok := stdWriters[name]; ok && k < len(com.Args) && isByteSlice(com.Args[k].Type()) {
+					if k, name, ok := foreignWriter(v, cal); ok && k < len(com.Args) && isByteSlice(com.Args[k].Type()) {
 						kind := "store"
 						if strings.Contains(name, "Append") {
 							kind = "append"
